@@ -226,6 +226,24 @@ def replay(beh, workdir, seed):
                     return ({'check': 'calls:result_is_an_existing_object'}, {'step': step})
                 w.objs.append(res)
                 w.kinds.append('res')
+                if step % 4 == 1 and w.kinds[o] != 'res':
+                    # short-lived arguments on topology objects of their own (deep copies of the same molecule, a molecule of
+                    # another species), created and dropped one after the other: the verdict is about the molecule offered now
+                    import gc
+                    for _round in range(2):
+                        tmp = w.objs[o].deep_copy()
+                        again = w.map(tmp).atoms_positions
+                        if not np.array_equal(again, res.atoms_positions):
+                            return ({'check': 'calls:result_differs_from_fresh_map', 'object': 'temporary'}, {'step': step})
+                        del tmp
+                        foreign = bad_argument(w, 'longer' if _round else 'shorter', rng)
+                        try:
+                            w.map(foreign)
+                            return ({'check': 'calls:bad_argument_accepted', 'bad': 'temporary homologue'}, {'step': step})
+                        except TypeError:
+                            pass
+                        del foreign
+                    gc.collect()
             elif op == 'CallBad':
                 arg = bad_argument(w, h['bad'], rng)
                 try:
